@@ -15,8 +15,9 @@ class Element:
         for subclass in cls.__subclasses__():
             if isinstance(msg, subclass.def_message_class):
                 element = subclass(vector, msg)
-                event = ValueUpdate(element, None, element._value)
-                vector.device.client.trigger_event(event)
+                if element._value is not None:
+                    event = ValueUpdate(element, None, element._value)
+                    vector.device.client.trigger_event(event)
                 return element
         return None
 
